@@ -9,7 +9,12 @@ MCTagNamesQ == {"v3.0.1", "3.0.1", "v3.1.0-rc.1", "v3.1.0-alpha.10", "v3.1.0", "
 \* abbreviated spellings (two-part, v-less, major-only) are in the quick tier on purpose: the tag must still be
 \* named after the canonical version
 MCRequestsQ == {"v3.0.1", "v3.1.0-alpha.2", "v3.1.0", "v3.1", "v4", "<missing>"}
-MCDirtyQ    == {"modified", "staged", "untracked", "deleted"}
+\* every work-tree state of TaggerWorktree.tla (content, mode-only, deletion, rename, untracked, ignored, symlink,
+\* type change, stat-only and combinations); "clean" itself is the initial state
+MCDirtyAll  == WtNames \ {"clean"}
+MCDirtyQ    == MCDirtyAll
+\* the simulated long histories draw one Touch among many other steps: a smaller alphabet, one state per family
+MCDirtyS    == {"modified", "staged", "untracked", "deleted", "chmod", "renamed", "ignored", "rewritten", "typechange"}
 
 MCNoBump == {}
 MCBranchQ == {<<"v3", "branch">>, <<"v4", "branch">>, <<"v3", "current">>, <<"v4", "remote">>, <<"v3.1.0", "branch">>}
@@ -23,5 +28,8 @@ MCRequestsS == {"v3.0.1", "v3.1.0-rc.1", "v3.1.0", "v4.0.0", "3.1.0", "v0.0.0", 
 MCTagNamesT == MCTagNamesQ \cup {"release/v3.1.0"}
 \* the remaining spellings (3.1.0, v03.1.0, v4.0.0, empty VERSION) are driven by the simulated histories, <missing> by quick
 MCRequestsT == {"v3.0.1", "v3.1.0-alpha.2", "v3.1.0-rc.1", "v3.1.0", "v3.1", "3.1", "v4", "v3.1.0+build.5", "v0.0.0", "banana"}
-MCDirtyT    == MCDirtyQ \cup {"ignored"}
+MCDirtyT    == MCDirtyAll
+MCDeepQ     == {"modified", "staged", "untracked", "deleted"}
+\* (thorough: histories of 4 actions; the five states of the earlier alphabet + a mode-only one at any point)
+MCDeepT     == {"modified", "staged", "untracked", "deleted", "ignored", "chmod"}
 =============================================================================
